@@ -731,6 +731,19 @@ def fam_ring(rng, sid0, n):
         for _ in range(30):
             sc.hs(0, "r", "e", ret=rng.choice([R_DATA_OK, R_DATA_OK, R_OK, R_ERROR, R_DATA_NEXT]), data=rng.choice([None, b"uu"]))
             sc.hs(1, "t", "e", ret=rng.choice([R_DATA_OK, R_OK, R_NEXT]))
+        # deterministic opening: while the run handler of +C is being re-invoked (NEXT) and asks the observers from inside, the queue is filled to
+        # capacity from outside with no event in progress: in the next service round the event machine takes the head, and the handler running
+        # in that same round must see the slot free (processed command = the event, buffer not full)
+        for k in (12, 15, 18, 21):          # the handler loop occupies roughly service rounds 14..28 after the line was fed
+            for _ in range(14):
+                sc.hs(3, "x", "c", ret=R_NEXT, act="qproc:1;q:full")
+            sc.hs(3, "x", "c", ret=R_OK)
+            sc.feed(b"AT+C\n")
+            sc.svc(k)
+            for _ in range(qcap):
+                sc.trig(0, "r")
+            sc.svc(4)
+            sc.settle(8000)
         # the run handler of +C loops and, from inside, asks the observers and triggers: the queue as seen from a callback in the very
         # service round in which the event machine takes the next event
         for _ in range(6):
